@@ -27,8 +27,8 @@ META = {
 PROBES = ["sch", "dn", "acp", "oa", "ea", "eb", "n2u", "idx"]
 
 
-def aspects(o1, o2):
-    rr = "ok" if o1 == o2 else "fail"
+def aspects(o1, o2, order):
+    rr = ("ok" if o1 == o2 else "fail") + (" ord=sf" if order == "storage_first" else " ord=pf")
     cfg = [o1[k] for k in ("sch", "dn", "acp", "oa")]
     data = [o1[k] for k in ("ea", "eb", "n2u", "idx")]
     out = []
@@ -69,8 +69,8 @@ def run(tier, replay):
     byvec = {}
     for t in mc["tuples"]:
         if t[0] == "SCHED":
-            byvec.setdefault(tuple(t[1:9]), []).append(t[9])
-    finevec = set(tuple(t[1:9]) for t in fine["tuples"] if t[0] == "SCHED")
+            byvec.setdefault(tuple(int(ch) for ch in t[1]), []).append(t[2])
+    finevec = set(tuple(int(ch) for ch in t[1]) for t in fine["tuples"] if t[0] == "VEC")
     if len(byvec) < 2:
         lib.tool_error("no witness schedules from KTxnSnapMC")
     obs = f"{wd}/obs.ndjson"
@@ -112,7 +112,7 @@ def run(tier, replay):
     for t in tv["l1fail"]:
         ln = t[2] - 1
         r = recs[ln]
-        for sig, what in aspects(r["o1"], r["o2"]):
+        for sig, what in aspects(r["o1"], r["o2"], order):
             R.violation(sig, f"schedule {r['s']}: {what}; the reader saw " +
                         " ".join(f"{p}={r['o1'][p]}" for p in PROBES) + f" (raw {r['raw1']})",
                         [json.dumps({"s": r["s"]})])
